@@ -37,7 +37,10 @@ type c13Case struct {
 	// ErrState: "conn-errors-full" = ten unconsumed reports (packets for a
 	// channel that does not exist) fill the connection's error queue;
 	// "+channel-error" = after that a response on the channel under test
-	// carries an unusable packet size announcement (a channel-level error)
+	// carries an unusable packet size announcement (a channel-level error);
+	// "channel-errors-overfull[/unknown-token|/mixed]" = twelve unconsumed
+	// channel-level errors on the channel under test (its error queue holds
+	// ten), from unusable packet size announcements, unknown tokens or both
 	ErrState string `json:"error_queues,omitempty"`
 	// Cause: the contexts the case cancels (the caller's, the connection's
 	// parent) are cancelled WITH a cause (context.WithCancelCause); their
@@ -329,10 +332,30 @@ func c13Run(c *Ctx, cs c13Case) {
 			}
 		}
 	}
-	if cs.ErrState != "" {
+	if strings.HasPrefix(cs.ErrState, "channel-errors-overfull") {
+		// twelve channel-level errors nobody consumes (the channel's error
+		// queue holds ten; 24 when two kinds take turns): the reader ends
+		// parked with the eleventh, further packets still unread
+		n := 12
+		if strings.HasSuffix(cs.ErrState, "/mixed") {
+			n = 24
+		}
+		for i := 0; i < n; i++ {
+			var body []byte
+			switch {
+			case strings.HasSuffix(cs.ErrState, "/unknown-token") || (strings.HasSuffix(cs.ErrState, "/mixed") && i%2 == 1):
+				body = []byte{0x01, 0x00, 0x00}
+			default:
+				body = srv.EnvChange(srv.EnvMember{Type: 4, New: "4", Old: "512"})
+			}
+			k.tr.Feed(xport.Packet(byte(tds.TDS_BUF_RESPONSE), 0, cs.chanID(), body))
+		}
+	} else if cs.ErrState != "" {
 		for i := 0; i < 10; i++ {
 			k.tr.Feed(xport.Packet(byte(tds.TDS_BUF_RESPONSE), xport.EOM, 999, srv.Done(srv.TokDone, 0, 0, 0)))
 		}
+	}
+	if cs.ErrState != "" {
 		if strings.HasSuffix(cs.ErrState, "+channel-error") {
 			k.tr.Feed(xport.Packet(byte(tds.TDS_BUF_RESPONSE), 0, cs.chanID(), srv.EnvChange(srv.EnvMember{Type: 4, New: "4", Old: "512"})))
 		}
@@ -340,7 +363,7 @@ func c13Run(c *Ctx, cs c13Case) {
 		// cannot queue yet
 		deadline := time.Now().Add(20 * time.Second)
 		for !k.tr.IsIdle() {
-			if st, ok := readerQuiescent(waitReaderGID(k.tr), 0); ok && st == "chan send" && !k.tr.Pending() {
+			if st, ok := readerQuiescent(waitReaderGID(k.tr), 0); ok && st == "chan send" && (!k.tr.Pending() || strings.HasPrefix(cs.ErrState, "channel-errors-overfull")) {
 				break
 			}
 			if time.Now().After(deadline) {
@@ -349,6 +372,9 @@ func c13Run(c *Ctx, cs c13Case) {
 			}
 			time.Sleep(200 * time.Microsecond)
 		}
+	}
+	if cs.ErrState != "" && !k.tr.IsIdle() {
+		r.Count("states_with_reader_parked_on_a_full_error_queue/"+cs.ErrState, 1)
 	}
 	stateClass := fmt.Sprintf("fill-%s", map[bool]string{true: "reader-parked-on-full-queue", false: "within-capacity"}[cs.Fill > c13Cap])
 	if cs.Fill == 0 {
@@ -888,6 +914,17 @@ func runC13(c *Ctx) {
 	}
 	// full connection error queue (and a channel-level error behind it)
 	for _, es := range []string{"conn-errors-full", "conn-errors-full+channel-error"} {
+		for _, f := range []int{0, 2} {
+			for _, logical := range []bool{false, true} {
+				for _, a := range []string{"close", "close-twice", "conn-close"} {
+					cases = append(cases, c13Case{Action: a, Fill: f, Logical: logical, Peer: "prompt", ErrState: es, Channels: f / 2})
+				}
+			}
+		}
+	}
+	// overfull channel error queue: twelve unconsumed channel-level errors
+	// (unusable packet size announcements, unknown tokens, both in turn)
+	for _, es := range []string{"channel-errors-overfull", "channel-errors-overfull/unknown-token", "channel-errors-overfull/mixed"} {
 		for _, f := range []int{0, 2} {
 			for _, logical := range []bool{false, true} {
 				for _, a := range []string{"close", "close-twice", "conn-close"} {
